@@ -15,8 +15,10 @@ class SramWorld(World):
     fault_kinds = ("stb_held_through_ack", "cyc_alone", "stb_alone", "request_changes_in_ack_cycle",
                    "partial_select", "zero_select", "write_to_read_only",
                    "init_is_one_shot_iterable", "init_reassigned", "init_patched_in_place",
-                   "second_instance_in_process")
+                   "second_instance_in_process", "domain_reset")
     assumptions = (
+        "a reset of the clock domain returns the component to its initial state (the state the "
+        "property calls initial is the state after reset, as for every Amaranth register)",
         "Amaranth's Python RTL simulator executes the elaborated netlist (including its memory "
         "primitive) faithfully",
         "a transfer is 'presented' in a cycle with cyc and stb high and ack low; a request still "
@@ -38,6 +40,7 @@ class SramWorld(World):
             # the image is replaced through the `init` attribute before the design is elaborated
             cfg["reinit"] = [rng.bits(dw) for _ in range(rng.range(0, depth))]
         cfg["decoy"] = int(rng.chance(0.1))
+        cfg["omit"] = int(rng.chance(0.3))
         if rng.chance(0.15):
             cfg["patch"] = [[rng.below(depth), rng.bits(dw)] for _ in range(rng.range(1, 3))]
         return cfg
@@ -52,6 +55,7 @@ class SramWorld(World):
         p_hold = rng.choice([0.0, 0.3, 0.6])
         hot = [rng.below(depth) for _ in range(3)]
         prev = None
+        p_rst = rng.choice([0, 0, 0, 0.02])
         for t in range(rng.range(60, 200)):
             if prev is not None and rng.chance(p_hold):
                 op = dict(prev)
@@ -61,8 +65,10 @@ class SramWorld(World):
                       "we": rng.below(2),
                       "adr": rng.choice(hot) if rng.chance(0.6) else rng.below(depth),
                       "sel": (1 << nsel) - 1 if selk < 2 else rng.bits(nsel), "dat": rng.bits(dw)}
+            if rng.chance(p_rst):
+                op = dict(op, rst=1)
             ops.append(op)
-            prev = op
+            prev = {k_: v_ for k_, v_ in op.items() if k_ != "rst"}
         return ops
 
     def run(self, config, ops, props, stats, hist):
@@ -78,7 +84,10 @@ class SramWorld(World):
         ctor = (lambda *a_, **k_: hw.must_accept("C15", f"WishboneSRAM(size={size}, data_width={dw}, "
                                                  f"granularity={g})", *a_, **k_)) \
             if in_domain else hw.construct
-        dut = ctor(WishboneSRAM, size=size, data_width=dw, granularity=g, writable=wr, init=arg)
+        dut = ctor(WishboneSRAM, **hw.spelled(config.get("omit") and how in ("list", "tuple"),
+                                              {"granularity": dw, "writable": True, "init": [],
+                                               }, size=size, data_width=dw, granularity=g,
+                                              writable=wr, init=arg))
         if how in ("iter", "gen"):
             stats.fault("init_is_one_shot_iterable")
         if config.get("reinit") is not None:
@@ -106,7 +115,8 @@ class SramWorld(World):
         depth = size * g // dw
         nsel = dw // g
         mem = image + [0] * (depth - len(image))
-        sim = hw.build_sim(hw.make_top(dut))
+        top, rst = hw.make_top_with_reset(dut)
+        sim = hw.build_sim(top)
         sweep = []
         for a in range(depth):
             sweep += [{"cyc": 1, "stb": 1, "we": 0, "adr": a, "sel": (1 << nsel) - 1, "dat": 0,
@@ -133,6 +143,8 @@ class SramWorld(World):
                 p.set(wb.dat_w, dat)
                 if len(wb.adr):
                     p.set(wb.adr, adr)
+                in_reset = int(op.get("rst") or 0) & 1
+                p.set(rst, in_reset)
                 ack = p.get(wb.ack)
                 stats.checks += 1
                 if ack != exp_ack:
@@ -142,7 +154,7 @@ class SramWorld(World):
                 d = p.get(wb.dat_r)
                 if ack and exp_dat is not None:
                     stats.checks += 1
-                    if d != exp_dat[1]:
+                    if exp_dat[1] is not None and d != exp_dat[1]:
                         cls = "final-sweep-contents-wrong" if op.get("sweep") or \
                             seq[t - 1].get("sweep") else "read-data-wrong"
                         raise Violation("C15", cls, t,
@@ -167,11 +179,18 @@ class SramWorld(World):
                             stats.fault("zero_select")
                         elif sel != (1 << nsel) - 1:
                             stats.fault("partial_select")
-                        if wr:
-                            for k in range(nsel):
-                                if (sel >> k) & 1:
-                                    m = ((1 << g) - 1) << (k * g)
-                                    mem[adr] = (mem[adr] & ~m) | (dat & m)
+                        if wr and in_reset and sel:
+                            # whether a write landing on the reset edge is performed is not
+                            # stated: the word is unknown until it is written in full again
+                            mem[adr] = None
+                        elif wr:
+                            if sel == (1 << nsel) - 1:
+                                mem[adr] = dat
+                            elif mem[adr] is not None:
+                                for k in range(nsel):
+                                    if (sel >> k) & 1:
+                                        m = ((1 << g) - 1) << (k * g)
+                                        mem[adr] = (mem[adr] & ~m) | (dat & m)
                             last_write = adr
                             stats.work += 1
                         else:
@@ -182,6 +201,12 @@ class SramWorld(World):
                             stats.probe("read_of_last_written_word")
                         if adr == depth - 1:
                             stats.probe("last_word")
+                if in_reset:
+                    # fault: the domain is reset at this edge; the pending acknowledge is gone and
+                    # the memory keeps its contents
+                    exp_ack = 0
+                    exp_dat = None
+                    stats.fault("domain_reset")
                 hist.rec(t, ack, d if ack else None)
                 prev_vec = vec
                 await ctx.tick()
@@ -197,6 +222,8 @@ class SramWorld(World):
             yield dict(op, dat=1)
         if op.get("cyc") and not op.get("stb"):
             yield dict(op, cyc=0)
+        if op.get("rst"):
+            yield dict(op, rst=0)
 
     def shrink_config(self, config, ops):
         if config["size"] > 2 and (config["size"] // 2) * config["g"] >= config["dw"]:
